@@ -381,14 +381,102 @@ theorem markApplied_append (l1 l2 : List PatchInfo) (st : Option Bytes × Option
     | error e => rfl
     | ok st' => simp only; rw [ih st']; rfl
 
-/-! ## the whole application is a function of (tag set, dedup result, applied bits) -/
+/-! ## the whole application is a function of (tag set, dedup results, applied bits) -/
+
+/-- agreement on shared gids for each of the four patchable tables (glyf, gvar, CFF, CFF2) -/
+def AgreeAll (gps : List GlyphPatches) : Prop := ∀ tag, IsArmTag tag → Agree tag gps
+
+/-- an arm looks at the patches only through `dedup_gid_replacement_data` for its own tag -/
+theorem armOf_congr_dedup (font : Font) (gps gps' : List GlyphPatches) (m : Nat) (tag : Tag)
+    (h : dedup tag gps = dedup tag gps') : armOf font gps m tag = armOf font gps' m tag := by
+  unfold armOf
+  by_cases h1 : tag = TAG_glyf
+  · subst h1
+    simp only [if_true]
+    unfold glyfArm
+    rw [h]
+  · rw [if_neg h1, if_neg h1]
+    by_cases h2 : tag = TAG_gvar
+    · subst h2
+      simp only [if_true]
+      unfold gvarPatch
+      rw [h]
+    · rw [if_neg h2, if_neg h2]
+      by_cases h3 : tag = TAG_CFF
+      · subst h3
+        simp only [if_true]
+        unfold cffPatch
+        rw [show cffTag false = TAG_CFF from rfl, h]
+      · rw [if_neg h3, if_neg h3]
+        by_cases h4 : tag = TAG_CFF2
+        · subst h4
+          simp only [if_true]
+          unfold cffPatch
+          rw [show cffTag true = TAG_CFF2 from rfl, h]
+        · rw [if_neg h4, if_neg h4]
+
+theorem oneTable_ok' (tag : Tag) (r : Except PErr Bytes) (outs : List (Tag × Bytes))
+    (h : oneTable tag r = .ok outs) : ∃ b, r = .ok b := by
+  obtain ⟨b, e, _⟩ := oneTable_ok tag r outs h
+  exact ⟨b, e⟩
+
+theorem gvarPatch_dedup_ok (g : Option Bytes) (gps : List GlyphPatches) (m : Nat) (out : Bytes)
+    (h : gvarPatch g gps m = .ok out) : ∃ repl, dedup TAG_gvar gps = .ok repl := by
+  unfold gvarPatch at h
+  split at h
+  · cases h
+  · cases hd : dedup TAG_gvar gps with
+    | error e => rw [hd] at h; cases h
+    | ok repl => exact ⟨repl, rfl⟩
+
+theorem cffPatch_dedup_ok (v2 : Bool) (ift table : Option Bytes) (gps : List GlyphPatches) (m : Nat)
+    (out : Bytes) (h : cffPatch v2 ift table gps m = .ok out) : ∃ repl, dedup (cffTag v2) gps = .ok repl := by
+  unfold cffPatch at h
+  split at h
+  · cases h
+  · split at h
+    · cases h
+    · split at h
+      · cases h
+      · cases hd : dedup (cffTag v2) gps with
+        | error e => rw [hd] at h; cases h
+        | ok repl => exact ⟨repl, rfl⟩
+
+/-- a successful arm has read every patch that names its tag -/
+theorem arm_ok_dedup (font : Font) (gps : List GlyphPatches) (m : Nat) (tag : Tag)
+    (outs : List (Tag × Bytes)) (h : armOf font gps m tag = some (.ok outs)) :
+    ∃ repl, dedup tag gps = .ok repl := by
+  unfold armOf at h
+  by_cases h1 : tag = TAG_glyf
+  · subst h1
+    simp only [if_true, Option.some.injEq] at h
+    obtain ⟨_, repl, _, _, _, hd, _⟩ := glyfArm_ok font gps m outs h
+    exact ⟨repl, hd⟩
+  · rw [if_neg h1] at h
+    by_cases h2 : tag = TAG_gvar
+    · subst h2
+      simp only [if_true, Option.some.injEq] at h
+      obtain ⟨b, hb⟩ := oneTable_ok' _ _ _ h
+      exact gvarPatch_dedup_ok _ gps m b hb
+    · rw [if_neg h2] at h
+      by_cases h3 : tag = TAG_CFF
+      · subst h3
+        simp only [if_true, Option.some.injEq] at h
+        obtain ⟨b, hb⟩ := oneTable_ok' _ _ _ h
+        exact cffPatch_dedup_ok false _ _ gps m b hb
+      · rw [if_neg h3] at h
+        by_cases h4 : tag = TAG_CFF2
+        · subst h4
+          simp only [if_true, Option.some.injEq] at h
+          obtain ⟨b, hb⟩ := oneTable_ok' _ _ _ h
+          exact cffPatch_dedup_ok true _ _ gps m b hb
+        · rw [if_neg h4] at h; cases h
 
 theorem applyGlyphPatches_congr (infos infos' : List PatchInfo) (gps gps' : List GlyphPatches) (font : Font)
     (e1 : tableTagList gps = tableTagList gps')
     (e3 : markApplied infos (font.get TAG_IFT, font.get TAG_IFTX)
             = markApplied infos' (font.get TAG_IFT, font.get TAG_IFTX))
-    (e2 : ∀ tags, tableTagList gps = .ok tags → TAG_glyf ∈ tags →
-            dedup TAG_glyf gps = dedup TAG_glyf gps') :
+    (e2 : ∀ tags, tableTagList gps = .ok tags → ∀ tag ∈ tags, dedup tag gps = dedup tag gps') :
     applyGlyphPatches infos gps font = applyGlyphPatches infos' gps' font := by
   unfold applyGlyphPatches
   rw [← e1, ← e3]
@@ -402,18 +490,21 @@ theorem applyGlyphPatches_congr (infos infos' : List PatchInfo) (gps gps' : List
       | error e => rfl
       | ok tags =>
         simp only
-        rw [patchTables_congr font gps gps' _ tags _ (e2 tags ht)]
+        rw [patchTables_congr font gps gps' _ tags _
+          (fun tag htag => armOf_congr_dedup font gps gps' _ tag (e2 tags ht tag htag))]
 
-theorem applyGlyphPatches_dedup_ok (infos : List PatchInfo) (gps : List GlyphPatches) (font out : Font)
+/-- on success every arm selected by a listed tag succeeded -/
+theorem applyGlyphPatches_arms_ok (infos : List PatchInfo) (gps : List GlyphPatches) (font out : Font)
     (h : applyGlyphPatches infos gps font = .ok out) (tags : List Tag)
-    (ht : tableTagList gps = .ok tags) (hg : TAG_glyf ∈ tags) :
-    ∃ repl, dedup TAG_glyf gps = .ok repl := by
+    (ht : tableTagList gps = .ok tags) :
+    ∀ tag ∈ tags, ∀ r, armOf font gps (numGlyphs font - 1) tag = some r → ∃ outs, r = .ok outs := by
   unfold applyGlyphPatches at h
   cases hm : font.get TAG_maxp with
   | none => rw [hm] at h; cases h
   | some maxp =>
     rw [hm] at h
     simp only at h
+    have hng : numGlyphs font = beValue (sliceLen maxp 4 2) := by simp [numGlyphs, hm]
     split at h
     · cases h
     · rw [ht] at h
@@ -422,25 +513,62 @@ theorem applyGlyphPatches_dedup_ok (infos : List PatchInfo) (gps : List GlyphPat
       | error e => rw [hp] at h; cases h
       | ok pb =>
         obtain ⟨p, b⟩ := pb
-        obtain ⟨_, s2, _⟩ := patchTables_spec font gps _ tags _ _ p b hp
-        obtain ⟨_, repl, _, _, _, hd, _⟩ := s2 hg
-        exact ⟨repl, hd⟩
+        obtain ⟨s1, _, _⟩ := patchTables_spec font gps _ tags _ _ p b hp
+        rw [hng]; exact s1
 
-/-- **order independence** at the level of `applyGlyphPatches` -/
+/-- on success every patch naming one of the four patchable tables was readable for that table -/
+theorem applyGlyphPatches_dedup_ok (infos : List PatchInfo) (gps : List GlyphPatches) (font out : Font)
+    (h : applyGlyphPatches infos gps font = .ok out) (tags : List Tag)
+    (ht : tableTagList gps = .ok tags) (tag : Tag) (hg : tag ∈ tags) (harm : IsArmTag tag) :
+    ∃ repl, dedup tag gps = .ok repl := by
+  have hs := applyGlyphPatches_arms_ok infos gps font out h tags ht tag hg
+  cases ha : armOf font gps (numGlyphs font - 1) tag with
+  | none => exact absurd harm ((armOf_none_iff _ _ _ _).mp ha)
+  | some r =>
+    obtain ⟨outs, e⟩ := hs r ha
+    subst e
+    exact arm_ok_dedup font gps _ tag outs ha
+
+/-- a tag that selects no arm contributes nothing: `dedup` for it is never consulted, so for the
+congruence any equation will do — we use the trivial one obtained from the perm lemma when readable,
+and otherwise fall back to the arm being `none` -/
+theorem armOf_congr_ignored (font : Font) (gps gps' : List GlyphPatches) (m : Nat) (tag : Tag)
+    (h : ¬ IsArmTag tag) : armOf font gps m tag = armOf font gps' m tag := by
+  rw [(armOf_none_iff font gps m tag).mpr h, (armOf_none_iff font gps' m tag).mpr h]
+
+/-- **order independence** at the level of `applyGlyphPatches`, any mix of tables -/
 theorem applyGlyphPatches_perm (ps ps' : List (PatchInfo × GlyphPatches)) (font out : Font)
-    (hperm : ps.Perm ps') (hagree : Agree TAG_glyf (ps.map (·.2)))
+    (hperm : ps.Perm ps') (hagree : AgreeAll (ps.map (·.2)))
     (h : applyGlyphPatches (ps.map (·.1)) (ps.map (·.2)) font = .ok out) :
     applyGlyphPatches (ps'.map (·.1)) (ps'.map (·.2)) font = .ok out := by
   have hp1 := hperm.map (·.1)
   have hp2 := hperm.map (·.2)
   have e1 : tableTagList (ps.map (·.2)) = tableTagList (ps'.map (·.2)) := by
     rcases tableTagList_perm _ _ hp2 with ⟨e, a, b⟩ | ⟨t, a, b⟩ <;> rw [a, b]
-  rw [← applyGlyphPatches_congr (ps.map (·.1)) (ps'.map (·.1)) (ps.map (·.2)) (ps'.map (·.2)) font e1
-    (markApplied_perm _ _ hp1 _) ?_]
-  · exact h
-  · intro tags ht hg
-    obtain ⟨repl, hd⟩ := applyGlyphPatches_dedup_ok _ _ font out h tags ht hg
-    rw [hd, dedup_perm TAG_glyf _ _ hp2 hagree repl hd]
+  have e3 := markApplied_perm _ _ hp1 (font.get TAG_IFT, font.get TAG_IFTX)
+  -- the congruence on arms, tag by tag
+  have key : applyGlyphPatches (ps.map (·.1)) (ps.map (·.2)) font
+      = applyGlyphPatches (ps'.map (·.1)) (ps'.map (·.2)) font := by
+    unfold applyGlyphPatches
+    rw [← e1, ← e3]
+    cases font.get TAG_maxp with
+    | none => rfl
+    | some maxp =>
+      simp only
+      split
+      · rfl
+      · cases ht : tableTagList (ps.map (·.2)) with
+        | error e => rfl
+        | ok tags =>
+          simp only
+          rw [patchTables_congr font (ps.map (·.2)) (ps'.map (·.2)) _ tags _ ?_]
+          intro tag htag
+          by_cases harm : IsArmTag tag
+          · obtain ⟨repl, hd⟩ := applyGlyphPatches_dedup_ok _ _ font out h tags ht tag htag harm
+            exact armOf_congr_dedup font _ _ _ tag
+              (by rw [hd, dedup_perm tag _ _ hp2 (hagree tag harm) repl hd])
+          · exact armOf_congr_ignored font _ _ _ tag harm
+  rw [← key]; exact h
 
 /-! ## grouping: apply some patches, then the rest -/
 
@@ -506,133 +634,5 @@ theorem chunkFor_two_step (a A : OffsetArray) (t : OffsetType) (repl1 repl2 repl
     | some d2 =>
       have := hag d1 d2 hf1 hf2
       subst this; rfl
-
-/-- **grouping independence** at the level of `applyGlyphPatches`: applying `ps1` and then `ps2` to
-the result gives the same tables as applying `ps1 ++ ps2` at once (patches agreeing on shared gids) -/
-theorem applyGlyphPatches_split (ps1 ps2 : List (PatchInfo × GlyphPatches)) (font font1 out2 out12 : Font)
-    (hu : UniqueTags font) (hagree : Agree TAG_glyf ((ps1 ++ ps2).map (·.2)))
-    (h1 : applyGlyphPatches (ps1.map (·.1)) (ps1.map (·.2)) font = .ok font1)
-    (h2 : applyGlyphPatches (ps2.map (·.1)) (ps2.map (·.2)) font1 = .ok out2)
-    (h12 : applyGlyphPatches ((ps1 ++ ps2).map (·.1)) ((ps1 ++ ps2).map (·.2)) font = .ok out12) :
-    out2 = out12 := by
-  rw [List.map_append, List.map_append] at h12
-  rw [List.map_append] at hagree
-  generalize hg1 : ps1.map (·.2) = gps1 at h1 h12 hagree
-  generalize hg2 : ps2.map (·.2) = gps2 at h2 h12 hagree
-  generalize hi1 : ps1.map (·.1) = infos1 at h1 h12
-  generalize hi2 : ps2.map (·.1) = infos2 at h2 h12
-  obtain ⟨tags1, ift1, iftx1, hn1, ht1, hma1, hs1, hI1, hX1, hoth1, _, hin1, hout1⟩ :=
-    applyGlyphPatches_char infos1 gps1 font font1 hu h1
-  have hu1 : UniqueTags font1 := sorted_unique font1 hs1
-  obtain ⟨tags2, ift2, iftx2, hn2, ht2, hma2, hs2, hI2, hX2, hoth2, _, hin2, hout2⟩ :=
-    applyGlyphPatches_char infos2 gps2 font1 out2 hu1 h2
-  obtain ⟨tags12, ift12, iftx12, hn12, ht12, hma12, hs12, hI12, hX12, hoth12, _, hin12, hout12⟩ :=
-    applyGlyphPatches_char (infos1 ++ infos2) (gps1 ++ gps2) font out12 hu h12
-  have hm1 := (tableTagList_ok gps1 tags1 ht1).2 TAG_glyf
-  have hm2 := (tableTagList_ok gps2 tags2 ht2).2 TAG_glyf
-  have hm12 := (tableTagList_ok (gps1 ++ gps2) tags12 ht12).2 TAG_glyf
-  have hng : numGlyphs font1 = numGlyphs font :=
-    numGlyphs_congr font font1 (hoth1 TAG_maxp (by decide) (by decide) (by decide) (by decide))
-  have hhead1 := hoth1 TAG_head (by decide) (by decide) (by decide) (by decide)
-  -- applied bits
-  have hbits : ift2 = ift12 ∧ iftx2 = iftx12 := by
-    rw [markApplied_append, hma1] at hma12
-    simp only [exBind] at hma12
-    rw [hI1, hX1] at hma2
-    rw [hma2] at hma12
-    simp only [Except.ok.injEq, Prod.mk.injEq] at hma12
-    exact hma12
-  -- glyf and loca
-  have hgl : out2.get TAG_glyf = out12.get TAG_glyf ∧ out2.get TAG_loca = out12.get TAG_loca := by
-    by_cases c1 : TAG_glyf ∈ tags1
-    · obtain ⟨a, repl1, data1, offs1, ha, hd1, hp1, hg1', hl1'⟩ := hin1 c1
-      have c12 : TAG_glyf ∈ tags12 := by
-        rw [hm12]; obtain ⟨gp, hgp, hx⟩ := hm1.mp c1
-        exact ⟨gp, List.mem_append_left _ hgp, hx⟩
-      obtain ⟨a12, repl12, data12, offs12, ha12, hd12, hp12, hg12', hl12'⟩ := hin12 c12
-      rw [ha] at ha12; cases ha12
-      by_cases c2 : TAG_glyf ∈ tags2
-      · -- both groups touch glyf
-        obtain ⟨sr1, _, lk1⟩ := dedup_spec TAG_glyf gps1 repl1 hd1
-        obtain ⟨sr12, _, lk12⟩ := dedup_spec TAG_glyf (gps1 ++ gps2) repl12 hd12
-        have hrb := glyf_splice_readback font font1 a repl1 _ data1 offs1 ha sr1 hp1 hg1' hl1' hhead1
-        obtain ⟨a2, repl2, data2, offs2, ha2, hd2, hp2, hg2', hl2'⟩ := hin2 c2
-        obtain ⟨sr2, _, lk2⟩ := dedup_spec TAG_glyf gps2 repl2 hd2
-        rw [hrb] at ha2; cases ha2
-        rw [hng] at hp2
-        simp only at hp2
-        obtain ⟨e2d, e2o⟩ := patchOffsetArray_eq _ repl2 _ sr2 _ data2 offs2 hp2
-        obtain ⟨e12d, e12o⟩ := patchOffsetArray_eq a repl12 _ sr12 _ data12 offs12 hp12
-        have hchunks : chunks { a with offsets := newOffsets (chunks a a.offsetType repl1 (numGlyphs font - 1)),
-                                       data := (chunks a a.offsetType repl1 (numGlyphs font - 1)).flatten }
-              a.offsetType repl2 (numGlyphs font - 1)
-            = chunks a a.offsetType repl12 (numGlyphs font - 1) := by
-          apply List.ext_getElem
-          · rw [chunks_length, chunks_length]
-          · intro g hga hgb
-            rw [chunks_getElem, chunks_getElem]
-            rw [chunks_length] at hga
-            apply chunkFor_two_step a _ a.offsetType repl1 repl2 repl12 _ g hga rfl rfl
-            · rw [lk12 g, lk1 g, lk2 g, firstWins_append]
-            · intro d1 d2 hf1 hf2
-              rw [lk1 g] at hf1
-              rw [lk2 g] at hf2
-              have m1 : (g, d1) ∈ (gps1 ++ gps2).flatMap (patchData TAG_glyf) := by
-                rw [List.flatMap_append]; exact List.mem_append_left _ (lookup_some_mem _ g d1 hf1)
-              have m2 : (g, d2) ∈ (gps1 ++ gps2).flatMap (patchData TAG_glyf) := by
-                rw [List.flatMap_append]; exact List.mem_append_right _ (lookup_some_mem _ g d2 hf2)
-              exact agree_flat TAG_glyf _ hagree g d1 d2 m1 m2
-        rw [hg2', hl2', hg12', hl12', e2d, e2o, e12d, e12o, hchunks]
-        exact ⟨rfl, rfl⟩
-      · -- only the first group touches glyf
-        obtain ⟨o1, o2⟩ := hout2 c2
-        have hno2 : ¬ ∃ gp ∈ gps2, TAG_glyf ∈ gp.tables := fun hx => c2 (hm2.mpr hx)
-        have : repl12 = repl1 := dedup_eq_of_lookup TAG_glyf _ _ _ _ hd12 hd1 (fun k => by
-          rw [firstWins_append, firstWins_none_of_no_tag TAG_glyf gps2 hno2 k, Option.or_none])
-        subst this
-        rw [hp1] at hp12
-        simp only [Except.ok.injEq, Prod.mk.injEq] at hp12
-        rw [o1, o2, hg1', hl1', hg12', hl12', hp12.2.1, hp12.2.2]
-        exact ⟨rfl, rfl⟩
-    · obtain ⟨p1, p2⟩ := hout1 c1
-      have hno1 : ¬ ∃ gp ∈ gps1, TAG_glyf ∈ gp.tables := fun hx => c1 (hm1.mpr hx)
-      by_cases c2 : TAG_glyf ∈ tags2
-      · -- only the second group touches glyf
-        obtain ⟨a2, repl2, data2, offs2, ha2, hd2, hp2, hg2', hl2'⟩ := hin2 c2
-        have c12 : TAG_glyf ∈ tags12 := by
-          rw [hm12]; obtain ⟨gp, hgp, hx⟩ := hm2.mp c2
-          exact ⟨gp, List.mem_append_right _ hgp, hx⟩
-        obtain ⟨a12, repl12, data12, offs12, ha12, hd12, hp12, hg12', hl12'⟩ := hin12 c12
-        rw [glyfAndLoca_congr font font1 p1 hhead1 p2] at ha2
-        rw [ha2] at ha12; cases ha12
-        have : repl12 = repl2 := dedup_eq_of_lookup TAG_glyf _ _ _ _ hd12 hd2 (fun k => by
-          rw [firstWins_append, firstWins_none_of_no_tag TAG_glyf gps1 hno1 k, Option.none_or])
-        subst this
-        rw [hng, hp12] at hp2
-        simp only [Except.ok.injEq, Prod.mk.injEq] at hp2
-        rw [hg2', hl2', hg12', hl12', hp2.2.1, hp2.2.2]
-        exact ⟨rfl, rfl⟩
-      · -- nobody touches glyf
-        obtain ⟨o1, o2⟩ := hout2 c2
-        have c12 : TAG_glyf ∉ tags12 := by
-          rw [hm12]; rintro ⟨gp, hgp, hx⟩
-          rcases List.mem_append.mp hgp with e | e
-          · exact c1 (hm1.mpr ⟨gp, e, hx⟩)
-          · exact c2 (hm2.mpr ⟨gp, e, hx⟩)
-        obtain ⟨q1, q2⟩ := hout12 c12
-        rw [o1, o2, p1, p2, q1, q2]
-        exact ⟨rfl, rfl⟩
-  apply sorted_lookup_ext _ _ hs2 hs12
-  intro t
-  show out2.get t = out12.get t
-  by_cases e1 : t = TAG_IFT
-  · subst e1; rw [hI2, hI12, hbits.1]
-  · by_cases e2 : t = TAG_IFTX
-    · subst e2; rw [hX2, hX12, hbits.2]
-    · by_cases e3 : t = TAG_glyf
-      · subst e3; exact hgl.1
-      · by_cases e4 : t = TAG_loca
-        · subst e4; exact hgl.2
-        · rw [hoth2 t e1 e2 e3 e4, hoth1 t e1 e2 e3 e4, hoth12 t e1 e2 e3 e4]
 
 end FontVerif.Ift
